@@ -21,9 +21,14 @@ from ..explore import Eval
 from ..report import Violation
 from ..ref import argv as ra
 
-SCRATCH = '/var/tmp/verif-c19'
-PROG = SCRATCH + '/echo prog.sh'
-LIBDIR = SCRATCH + '/lib dir'
+# A scratch directory of this run's own (several runs may go on at the same time); cases name its files by placeholder
+SCRATCH = None
+PROG = '@PROG@'
+LIBDIR = '@LIBDIR@'
+
+
+def real(words):
+    return [w.replace('@PROG@', SCRATCH + '/echo prog.sh').replace('@LIBDIR@', SCRATCH + '/lib dir') for w in words]
 ARGV0 = 'main.py'
 
 MATCHER_OK = {'(="\U0001F600")': True, '(="é\u2028")': True,
@@ -43,8 +48,13 @@ MARKER_UNITS = {('-r',), ('-g',), ('--run',), ('--gdb',), ('-Cr',), ('-Cg',), ('
 
 
 def setup_scratch():
-    os.makedirs(LIBDIR, exist_ok=True)
-    with open(PROG, 'w') as f:
+    global SCRATCH
+    SCRATCH = tempfile.mkdtemp(prefix='verif-c19-', dir='/var/tmp')
+    # removed when this process ends (not earlier: confirmation and in-context re-runs come after run() has returned)
+    import atexit
+    atexit.register(shutil.rmtree, SCRATCH, True)
+    os.makedirs(real([LIBDIR])[0], exist_ok=True)
+    with open(real([PROG])[0], 'w') as f:
         f.write('#!/bin/sh\n'
                 'out="$VERIF_ECHO_FILE"\n'
                 ': > "$out"\n'
@@ -52,7 +62,7 @@ def setup_scratch():
                 'printf "WAYLAND_DEBUG=%s\\0" "$WAYLAND_DEBUG" >> "$out"\n'
                 'echo "child stdout marker"\n'
                 'exit 7\n')
-    os.chmod(PROG, 0o755)
+    os.chmod(real([PROG])[0], 0o755)
     with open(SCRATCH + '/echo_argv.py', 'w') as f:
         f.write('import sys, json, os\n'
                 'json.dump(sys.argv, open(os.environ["VERIF_ECHO_FILE"], "w"))\n')
@@ -72,7 +82,7 @@ def words_of(case):
     w = []
     for i in case['units']:
         w += list(UNITS[i])
-    return w
+    return real(w)
 
 
 @contextlib.contextmanager
@@ -249,7 +259,7 @@ def eval_cli(case):
         main_py = os.path.join(sut.REPO, 'main.py')
         try:
             if case['cli'] == 'run':
-                argv = ['/venv/bin/python', main_py] + case['left'] + [case['marker'], PROG] + case['right']
+                argv = ['/venv/bin/python', main_py] + case['left'] + [case['marker']] + real([PROG]) + case['right']
                 p = subprocess.run(argv, input='q\n', capture_output=True, text=True, env=env, cwd=d, timeout=60)
                 got = open(echo, 'rb').read().split(b'\0')[:-1] if os.path.exists(echo) else None
                 want = [w.encode() for w in case['right']] + [b'WAYLAND_DEBUG=1']
@@ -265,7 +275,7 @@ def eval_cli(case):
                 if got != 'sh':
                     V.append(Violation('cli.program_name', case, {'program_saw_argv0': got, 'want': 'sh', 'stderr': p.stderr[-300:]}))
             elif case['cli'] == 'norun':
-                argv = ['/venv/bin/python', main_py] + case['words']
+                argv = ['/venv/bin/python', main_py] + real(case['words'])
                 p = subprocess.run(argv, input='q\n', capture_output=True, text=True, env=env, cwd=d, timeout=60)
                 if os.path.exists(echo):
                     V.append(Violation('cli.ran_anyway', case, {'returncode': p.returncode, 'stdout': p.stdout[-200:]}))
@@ -317,7 +327,7 @@ def run(run, tier, seed):
         res = explore.prod(lambda: gen_cli(tier), eval_cli, seed=seed, bound={'real_processes': True})
         run.add_part('real_cli', res)
     finally:
-        shutil.rmtree(SCRATCH, ignore_errors=True)
+        pass
     run.rule = ('all vectors of up to n units over %d units (flags, clusters, options with hostile values, markers in every '
                 'spelling, forwarded look-alikes) with at most two markers; non-trivial = accepted vector containing a marker; '
                 'plus a slice through the real command line (real child echoing argv, real gdb -batch)' % len(UNITS))
@@ -334,4 +344,4 @@ def replay(case):
             return eval_cli(case).viols
         return evaluate(case).viols
     finally:
-        shutil.rmtree(SCRATCH, ignore_errors=True)
+        pass
